@@ -201,7 +201,7 @@ def rec_analytic(args):
     fw = WIDTH[w]
     is_prf = model.endswith('PRF')
     rec = {'id': idx, 'kind': 'analytic', 'model': model, 'width': w, 'theta': c['theta'], 'shape': shape, 'raised': False, 'has_circ': False, 'circ': 0,
-           'has_forms': False, 'forms': 0, 'tol_circ': 4, 'rotated_prf': model == 'GaussianPRF' and c['theta'] % 6 != 0}
+           'has_forms': False, 'forms': 0, 'has_psfref': False, 'psfref': 0, 'tol_circ': 4, 'rotated_prf': model == 'GaussianPRF' and c['theta'] % 6 != 0}
     try:
         m = build(model, w, x0, y0, th, shape, flux)
         ext = fw * (1.6 if shape == 2 else 1.0)
@@ -253,6 +253,14 @@ def rec_analytic(args):
             a = np.asarray(m(xx2.astype(float), yy2.astype(float))); b = np.asarray(circ(xx2.astype(float), yy2.astype(float)))
             rec['has_circ'] = True
             rec['circ'] = int(round(float(np.max(np.abs(a - b))) / flux * S))
+        if model == 'GaussianPRF' and shape == 2 and w == 5:
+            # the pixel-integrated form of a wide elliptical Gaussian is oriented like the point form with the same parameters
+            # (deviation relative to the peak, in 1/65536; pixel integration itself changes a 4 x 6.4 px Gaussian by about 1 %)
+            psf = build('GaussianPSF', w, x0, y0, th, shape, flux)
+            yy3, xx3 = np.mgrid[28:53, 28:53]
+            a3 = np.asarray(m(xx3.astype(float), yy3.astype(float))); b3 = np.asarray(psf(xx3.astype(float), yy3.astype(float)))
+            rec['has_psfref'] = True
+            rec['psfref'] = int(round(float(np.max(np.abs(a3 - b3))) / float(b3.max()) * S))
         if model == 'CircularGaussianSigmaPRF':
             other = build('CircularGaussianPRF', w, x0, y0, 0.0, 1, flux)
             yy2, xx2 = np.mgrid[34:47, 34:47]
